@@ -802,8 +802,14 @@ func ruleR10_7(w *World, r *Report) {
 			if !has {
 				for _, l := range lits {
 					if l.Kind == "ok" && !l.Pol {
-						if ta, isTA := l.X.(*ssa.TypeAssert); isTA && strings.Contains(ta.AssertedType.String(), "ResetTransaction") {
-							has = true
+						if ta, isTA := l.X.(*ssa.TypeAssert); isTA {
+							if it, isI := ta.AssertedType.Underlying().(*types.Interface); isI {
+								for i := 0; i < it.NumMethods(); i++ {
+									if it.Method(i).Name() == "ResetTransaction" {
+										has = true
+									}
+								}
+							}
 						}
 					}
 				}
@@ -1561,7 +1567,7 @@ func ruleR13_7(w *World, r *Report) {
 	}
 	ev := errResult(exist)
 	found := false
-	for _, b := range fn.Blocks {
+	for _, b := range exist.Parent().Blocks {
 		if len(b.Instrs) == 0 {
 			continue
 		}
@@ -1585,7 +1591,10 @@ func ruleR13_7(w *World, r *Report) {
 			if !isRet || len(ret.Results) != 1 {
 				return false
 			}
-			c, isC := ret.Results[0].(*ssa.Const)
+			if ret.Parent() != fn {
+				return false // the exit of a new helper: the walk goes on in the caller
+			}
+			c, isC := envValue(ret.Results[0]).(*ssa.Const)
 			return isC && c.Value == nil
 		})
 		pos := u.Pos(ifi.Pos())
@@ -1609,7 +1618,7 @@ func ruleR13_7(w *World, r *Report) {
 			continue
 		}
 		n++
-		paths, okp := reachingLitsOwn(fn, nil, call)
+		paths, okp := reachingLits(fn, nil, call)
 		good := okp && len(paths) > 0
 		for _, p := range paths {
 			g := false
